@@ -28,17 +28,52 @@ LABELS = {'name', 'notes', 'smiles', 'elements', 'phase', 'id', 'n_sites', 'D0',
 # --------------------------------------------------------------------------
 # value generators
 # --------------------------------------------------------------------------
+class FalsyRandom(random.Random):
+    """Random source that also carries the 'falsy' mode of a case: None (ordinary non-default
+    values), 'half' (every scalar slot takes a falsy member of its type with probability 1/2) or
+    'all' (every scalar slot does).  Falsy but meaningful values - 0, 0.0, -0.0, False, '', {}, [] -
+    must come back as themselves, not as None or as the constructor default."""
+    falsy = None
+
+    def hit(self):
+        return self.falsy == 'all' or (self.falsy == 'half' and self.random() < 0.5)
+
+
+def _hit(rnd):
+    return getattr(rnd, 'falsy', None) is not None and rnd.hit()
+
+
+def _i(rnd, options):
+    """integer-valued slot"""
+    return 0 if _hit(rnd) else rnd.choice(options)
+
+
+def _b(rnd, value):
+    """boolean slot"""
+    return False if _hit(rnd) else value
+
+
+def _s(rnd, value):
+    """string slot"""
+    return '' if _hit(rnd) else value
+
+
 def _name(rnd, stem):
     tail = ''.join(rnd.choice('ABCDEFGHJKLMNPQRSTUVWXYZabcdefghkmnpqrstuvwxyz0123456789')
                    for _ in range(rnd.randint(1, 5)))
     return rnd.choice(['%s%s', '%s_%s', '%s%s(S)', '%s-%s*']) % (stem, tail)
 
 
-def _f(rnd, lo, hi):
+def _f(rnd, lo, hi, nz=False):
+    """float slot; nz: the constructor or a neighbouring slot needs a proper number here"""
+    if not nz and _hit(rnd):
+        return rnd.choice([0.0, 0.0, -0.0, 0])
     return rnd.uniform(lo, hi)
 
 
 def _notes(rnd):
+    if _hit(rnd):
+        return rnd.choice(['', {}])
     r = rnd.random()
     if r < 0.5:
         return 'note %s; "quoted" \\ %d' % (_name(rnd, 'n'), rnd.randint(0, 999))
@@ -46,11 +81,15 @@ def _notes(rnd):
 
 
 def _elements(rnd):
+    if _hit(rnd):
+        return {}
     els = rnd.sample(['H', 'C', 'O', 'N', 'Pt', 'Ru', 'Cu'], rnd.randint(1, 3))
     return {e: rnd.randint(1, 4) for e in els}
 
 
 def _smiles(rnd):
+    if _hit(rnd):
+        return ''
     return rnd.choice(['O', 'C=O', '[H][H]', 'CC(O)=O', 'N#N', 'O=C=O']) + rnd.choice(['', '.[Pt]'])
 
 
@@ -70,7 +109,19 @@ class Builder:
         for sl in self.schema[c]:
             sub = slots.get(sl['s'], [])
             kids[sl['s']] = [self.build(k, hint=self._hint(c, sl['s'], node)) for k in sub]
-        return getattr(self, 'b_' + c)(kids, hint or {})
+        mode = getattr(self.rnd, 'falsy', None)
+        try:
+            return getattr(self, 'b_' + c)(kids, hint or {})
+        except Exception:
+            if mode is None:
+                raise
+            # a falsy value the constructor does not accept: build this subtree with ordinary values
+            self.rnd.falsy = None
+            self.fallbacks = getattr(self, 'fallbacks', 0) + 1
+            try:
+                return self.build(node, hint)
+            finally:
+                self.rnd.falsy = mode
 
     def _hint(self, c, slot, node):
         h = {}
@@ -82,6 +133,8 @@ class Builder:
 
     def _uid(self, stem):
         self.counter += 1
+        if _hit(self.rnd):
+            return ''
         return '%s%d' % (_name(self.rnd, stem), self.counter)
 
     # ---- leaves
@@ -114,23 +167,27 @@ class Builder:
 
     def b_FreeTrans(self, kids, hint):
         from pmutt.statmech.trans import FreeTrans
-        return FreeTrans(n_degrees=self.rnd.choice([1, 2]), molecular_weight=_f(self.rnd, 2., 200.))
+        return FreeTrans(n_degrees=_i(self.rnd, [1, 2]), molecular_weight=_f(self.rnd, 2., 200.))
 
     def _wavenumbers(self, n=None):
         r = self.rnd
-        return [_f(r, 60., 3900.) for _ in range(n or r.randint(1, 6))]
+        if _hit(r):
+            return []
+        return [_f(r, 60., 3900., nz=True) for _ in range(n or r.randint(1, 6))]
 
     def b_HarmonicVib(self, kids, hint):
         from pmutt.statmech.vib import HarmonicVib
-        w = self._wavenumbers() + [-_f(self.rnd, 50., 900.)]
+        w = self._wavenumbers()
+        w = w + [-_f(self.rnd, 50., 900., nz=True)] if w else w
         return HarmonicVib(vib_wavenumbers=w, imaginary_substitute=_f(self.rnd, 20., 90.))
 
     def b_QRRHOVib(self, kids, hint):
         from pmutt.statmech.vib import QRRHOVib
         r = self.rnd
-        w = self._wavenumbers() + [-_f(r, 50., 900.)]
+        w = self._wavenumbers()
+        w = w + [-_f(r, 50., 900., nz=True)] if w else w
         return QRRHOVib(vib_wavenumbers=w, Bav=_f(r, 2e-44, 9e-44), v0=_f(r, 60., 190.),
-                        alpha=r.choice([2, 3, 5]), imaginary_substitute=_f(r, 20., 90.))
+                        alpha=_i(r, [2, 3, 5]), imaginary_substitute=_f(r, 20., 90.))
 
     def b_EinsteinVib(self, kids, hint):
         from pmutt.statmech.vib import EinsteinVib
@@ -146,22 +203,22 @@ class Builder:
         from pmutt.statmech.rot import RigidRotor
         r = self.rnd
         if r.random() < 0.5:
-            return RigidRotor(symmetrynumber=r.choice([2, 3, 12]), geometry='nonlinear',
-                              rot_temperatures=[_f(r, 0.5, 60.) for _ in range(3)])
-        return RigidRotor(symmetrynumber=r.choice([2, 3]), geometry='linear',
-                          rot_temperatures=[_f(r, 0.5, 60.)])
+            return RigidRotor(symmetrynumber=_i(r, [2, 3, 12]), geometry='nonlinear',
+                              rot_temperatures=[_f(r, 0.5, 60., nz=True) for _ in range(3)])
+        return RigidRotor(symmetrynumber=_i(r, [2, 3]), geometry='linear',
+                          rot_temperatures=[_f(r, 0.5, 60., nz=True)])
 
     def b_GroundStateElec(self, kids, hint):
         from pmutt.statmech.elec import GroundStateElec
         r = self.rnd
-        return GroundStateElec(potentialenergy=_f(r, -90., -1.), spin=r.choice([0.5, 1., 1.5]),
+        return GroundStateElec(potentialenergy=_f(r, -90., -1.), spin=(0.0 if _hit(r) else r.choice([0.5, 1., 1.5])),
                                D0=_f(r, 0.5, 6.))
 
     def b_PiecewiseCovEffect(self, kids, hint):
         from pmutt.mixture.cov import PiecewiseCovEffect
         r = self.rnd
         n = r.randint(1, 3)
-        iv = [0.] + sorted(_f(r, 0.05, 0.95) for _ in range(n - 1))
+        iv = [0.] + sorted(_f(r, 0.05, 0.95, nz=True) for _ in range(n - 1))
         return PiecewiseCovEffect(name_i=self._uid('I'), name_j=self._uid('J'), intervals=iv,
                                   slopes=[_f(r, -30., 30.) for _ in iv], name=self._uid('cov'))
 
@@ -170,7 +227,7 @@ class Builder:
         r = self.rnd
         nm = self._uid('SITE')
         return CatSite(name=nm, site_density=_f(r, 1e-9, 9e-9), density=_f(r, 2., 22.),
-                       bulk_specie=nm + '(B)')
+                       bulk_specie=_s(r, nm + '(B)'))
 
     def b_BEP(self, kids, hint):
         from pmutt.reaction.bep import BEP
@@ -184,8 +241,8 @@ class Builder:
         from pmutt.empirical.nasa import SingleNasa9
         r = self.rnd
         lo = hint.get('T_low', _f(r, 150., 400.))
-        hi = hint.get('T_high', lo + _f(r, 300., 900.))
-        a = [_f(r, -2e3, 2e3), _f(r, -50., 50.), _f(r, 1., 6.), _f(r, -1e-3, 1e-3), _f(r, -1e-6, 1e-6),
+        hi = hint.get('T_high', lo + _f(r, 300., 900., nz=True))
+        a = [_f(r, -2e3, 2e3), _f(r, -50., 50.), _f(r, 1., 6., nz=True), _f(r, -1e-3, 1e-3), _f(r, -1e-6, 1e-6),
              _f(r, -1e-9, 1e-9), _f(r, -1e-13, 1e-13), _f(r, -3e4, 3e4), _f(r, -9., 9.)]
         return SingleNasa9(T_low=lo, T_high=hi, a=np.array(a))
 
@@ -209,6 +266,8 @@ class Builder:
         r = self.rnd
         gas = r.choice(GAS_SPELLINGS)
         other = r.choice(['S', 's', 'L', 'surface'] if need_str else ['S', 's', 'L', 'surface', None])
+        if _hit(r):
+            other = ''
         if has_adj:
             # adjustment given explicitly: kept by every combination
             return r.choice([(gas, True), (gas, True), (gas, False), (other, True), (other, False)])
@@ -233,14 +292,14 @@ class Builder:
         r = self.rnd
         kw = self._emp_kwargs(kids, hint, 'NS')
         lo = _f(r, 150., 320.)
-        mid = lo + _f(r, 500., 900.)
+        mid = lo + _f(r, 500., 900., nz=True)
         cat = kids['cat_site'][0] if kids.get('cat_site') else None
-        return Nasa(T_low=lo, T_mid=mid, T_high=mid + _f(r, 900., 2500.),
-                    a_low=[_f(r, 2., 6.), _f(r, -3e-3, 3e-3), _f(r, -7e-6, 7e-6), _f(r, -6e-9, 6e-9),
+        return Nasa(T_low=lo, T_mid=mid, T_high=mid + _f(r, 900., 2500., nz=True),
+                    a_low=[_f(r, 2., 6., nz=True), _f(r, -3e-3, 3e-3), _f(r, -7e-6, 7e-6), _f(r, -6e-9, 6e-9),
                            _f(r, -2e-12, 2e-12), _f(r, -4e4, 4e4), _f(r, -9., 9.)],
-                    a_high=[_f(r, 2., 6.), _f(r, -3e-3, 3e-3), _f(r, -7e-7, 7e-7), _f(r, -6e-10, 6e-10),
+                    a_high=[_f(r, 2., 6., nz=True), _f(r, -3e-3, 3e-3), _f(r, -7e-7, 7e-7), _f(r, -6e-10, 6e-10),
                             _f(r, -2e-14, 2e-14), _f(r, -4e4, 4e4), _f(r, -9., 9.)],
-                    cat_site=cat, n_sites=r.choice([2, 3, 4]), **kw)
+                    cat_site=cat, n_sites=_i(r, [2, 3, 4]), **kw)
 
     def b_Shomate(self, kids, hint):
         import numpy as np
@@ -248,10 +307,10 @@ class Builder:
         r = self.rnd
         kw = self._emp_kwargs(kids, hint, 'SH')
         lo = _f(r, 150., 500.)
-        a = [_f(r, 10., 60.), _f(r, -20., 20.), _f(r, -10., 10.), _f(r, -4., 4.), _f(r, -1., 1.),
+        a = [_f(r, 10., 60., nz=True), _f(r, -20., 20.), _f(r, -10., 10.), _f(r, -4., 4.), _f(r, -1., 1.),
              _f(r, -400., 100.), _f(r, 100., 300.), _f(r, -400., 100.)]
-        return Shomate(T_low=lo, T_high=lo + _f(r, 900., 2500.), a=np.array(a),
-                       units=r.choice(['kJ/mol/K', 'cal/mol/K', 'eV/K']), n_sites=r.choice([2, 3, 4]), **kw)
+        return Shomate(T_low=lo, T_high=lo + _f(r, 900., 2500., nz=True), a=np.array(a),
+                       units=r.choice(['kJ/mol/K', 'cal/mol/K', 'eV/K']), n_sites=_i(r, [2, 3, 4]), **kw)
 
     def b_Nasa9(self, kids, hint):
         import numpy as np
@@ -271,12 +330,12 @@ class Builder:
         lo = _f(r, 150., 320.)
         windows = []
         for _ in nasas:
-            hi = lo + _f(r, 500., 1500.)
+            hi = lo + _f(r, 500., 1500., nz=True)
             windows.append((lo, hi))
             lo = hi
         for n9, w in zip(nasas, order):
             n9.T_low, n9.T_high = windows[w]
-        return Nasa9(nasas=nasas, n_sites=r.choice([2, 3, 4]), **kw)
+        return Nasa9(nasas=nasas, n_sites=_i(r, [2, 3, 4]), **kw)
 
     def b_Reference(self, kids, hint):
         from pmutt.empirical.references import Reference
@@ -297,7 +356,7 @@ class Builder:
         if not refs:
             # no reference species: the offsets are given directly
             return References(offset={'H': _f(self.rnd, -9., 9.), 'O': _f(self.rnd, -9., 9.)},
-                              references=None, descriptor='elements', T_ref=_f(self.rnd, 250., 400.))
+                              references=None, descriptor='elements', T_ref=_f(self.rnd, 250., 400., nz=True))
         base = [{'H': 2}, {'O': 2}, {'H': 2, 'O': 1}]
         for i, ref in enumerate(refs):
             ref.elements = dict(base[i % 3])
@@ -322,15 +381,15 @@ class Builder:
     def b_ChemkinReaction(self, kids, hint):
         from pmutt.reaction import ChemkinReaction
         r = self.rnd
-        return ChemkinReaction(beta=_f(r, 0.1, 0.9), is_adsorption=True, sticking_coeff=_f(r, 0.05, 0.45),
+        return ChemkinReaction(beta=_f(r, 0.1, 0.9), is_adsorption=_b(r, True), sticking_coeff=_f(r, 0.05, 0.45),
                                **self._rxn_kwargs(kids))
 
     def b_SurfaceReaction(self, kids, hint):
         from pmutt.omkm.reaction import SurfaceReaction
         r = self.rnd
-        return SurfaceReaction(id=self._uid('r_'), is_adsorption=True, A=_f(r, 1e10, 9e13),
+        return SurfaceReaction(id=self._uid('r_'), is_adsorption=_b(r, True), A=_f(r, 1e10, 9e13),
                                beta=_f(r, 0.1, 0.9), Ea=_f(r, 1., 40.), sticking_coeff=_f(r, 0.05, 0.45),
-                               direction=r.choice(['synthesis', 'cleavage']), use_motz_wise=True,
+                               direction=_s(r, r.choice(['synthesis', 'cleavage'])), use_motz_wise=_b(r, True),
                                **self._rxn_kwargs(kids))
 
     def b_Reactions(self, kids, hint):
@@ -361,14 +420,14 @@ def make_references(refs, rnd, state):
     from pmutt.empirical.references import References
     if state == 'explicit':
         return References(offset={'H': _f(rnd, -9., 9.), 'O': _f(rnd, -9., 9.)}, references=refs,
-                          descriptor='elements', T_ref=_f(rnd, 250., 400.))
+                          descriptor='elements', T_ref=_f(rnd, 250., 400., nz=True))
     if state == 'stale':
         if len(refs) >= 2 and rnd.random() < 0.6:
             obj = References(references=list(refs[:-1]), descriptor='elements')
             obj.append(refs[-1])
         else:
             obj = References(references=list(refs), descriptor='elements')
-            refs[0].HoRT_ref = refs[0].HoRT_ref + _f(rnd, 3., 30.)
+            refs[0].HoRT_ref = refs[0].HoRT_ref + _f(rnd, 3., 30., nz=True)
         return obj
     return References(references=refs, descriptor='elements')
 
@@ -888,7 +947,8 @@ def run_lifecycle(case, schema, attrs):
     """Build the object of one abstract tree and take it through the lifecycle.
     Returns (events, mismatches)."""
     from pmutt.io.json import pmuttEncoder, json_to_pmutt
-    rnd = random.Random(case['seed'])
+    rnd = FalsyRandom(case['seed'])
+    rnd.falsy = case.get('falsy')
     walker = Walker(schema, attrs)
     if 'extra' in case:
         _EXTRA_SCHEMA.clear()
